@@ -8,13 +8,13 @@ OWN = {"P02_gate"}
 
 def plans(ctx):
     if ctx.tier == "quick":
-        return [R.Plan("q1", "S_q1", emit_mod=22, max_inst=1, max_pw=2),
-                R.Plan("t1d", "S_t1d", emit_mod=5, max_inst=1, max_pw=2),
+        return [R.Plan("q1", "S_q1", emit_mod=32, max_inst=1, max_pw=2),
+                R.Plan("t1d", "S_t1d", emit_mod=8, max_inst=1, max_pw=2),
                 R.Plan("t1di2", "S_t1d", emit_mod=40, max_inst=2, max_pw=1, stray=1, also=R.crowd_also(200)),
                 # iauth_xquery not loaded: the loaded modules ask for the host name result only
                 R.Plan("noxq", "S_noxq", emit_mod=1, max_inst=2, max_pw=1, stray=1),
                 # less usual configurations: an entry with an unknown protocol word, a dronecheck service alone
-                R.Plan("unk", "S_unk", emit_mod=120, max_inst=1, max_pw=2),
+                R.Plan("unk", "S_unk", emit_mod=200, max_inst=1, max_pw=2),
                 R.Plan("drone", "S_drone", emit_mod=12, max_inst=1, max_pw=2)]
     return [R.Plan("q1", "S_q1", emit_mod=8, max_inst=1, max_pw=2),
             R.Plan("q1i2", "S_q1", emit_mod=25, max_inst=2, max_pw=2, stray=1, also=R.crowd_also(1500)),
